@@ -293,7 +293,7 @@ class Section(Entity):
 
         while sections:
             sect = sections.pop(0)
-            if self in sect.sections:
+            if self.id in sect.sections:
                 self._sec_parent = sect
                 return sect
             sections.extend(sect.sections)
